@@ -53,6 +53,7 @@ class Gen:
         self.labels = []
         self.in_func_ret = None
         self.errfuncs = []          # XGo: funcs returning (int, error)
+        self.root = Scope()         # package-level variables (declared before every function)
 
     # ------------------------------------------------------------ utilities
     def f(self, k):
@@ -194,7 +195,9 @@ class Gen:
                 cond = ""
                 if r.below(2):
                     cond = ", %s" % self.expr(BOOL, sub, d + 2)
-                return "[%s for %s <- %s%s]" % (self.expr(INT, sub, d + 2), x, src, cond)
+                # the element expression uses the variable: an unused comprehension variable is rejected by
+                # Go ("declared and not used", known C06 finding)
+                return "[(%s + %s) for %s <- %s%s]" % (x, self.expr(INT, sub, d + 2), x, src, cond)
             return self.pick(vs) if vs else "[]int{1, 2, 3}"
         if typ == STRS:
             if vs and r.below(2):
@@ -483,7 +486,7 @@ class Gen:
         ptr = self.r.below(2) == 0
         ret = self.pick([INT, STR])
         params = [INT] if self.r.below(2) else []
-        sc = Scope()
+        sc = Scope(self.root)
         sc.vars.append(("s", ("*" if ptr else "") + name, False))
         pn = []
         for i, p in enumerate(params):
@@ -505,7 +508,7 @@ class Gen:
         name = "fn%d" % len(self.funcs)
         ret = self.pick([INT, INT, STR, INTS])
         params = [self.pick([INT, STR, INTS, BOOL]) for _ in range(self.r.below(3))]
-        sc = Scope()
+        sc = Scope(self.root)
         pn = []
         for i, p in enumerate(params):
             sc.add("a%d" % i, p)
@@ -539,6 +542,11 @@ func cut(xs []int, lo, hi int) []int {
 	return xs[lo:hi]
 }
 
+func tr(name string, v int) int {
+	fmt.Println("init", name, v)
+	return v
+}
+
 func keys(m map[string]int) []string {
 	var ks []string
 	for k := range m {
@@ -559,6 +567,21 @@ func keys(m map[string]int) []string {
             self.gen_struct()
         for st in self.structs:
             decls.append(["type %s struct {" % st[0]] + ["\t%s %s" % f for f in st[1]] + ["}"])
+        # package-level variables with effectful initialisers, declared BEFORE every function that can
+        # refer to them (a function referring to a later variable changes the initialisation order
+        # when compiled by XGo: known finding var-init-order)
+        gl = []
+        for i in range(self.r.below(4)):
+            g = "g%d" % i
+            t = self.pick([INT, INT, STR])
+            if t == INT:
+                gl.append("var %s = tr(\"%s\", %s)" % (g, g, self.expr(INT, self.root, 2)))
+            else:
+                gl.append("var %s = fmt.Sprint(tr(\"%s\", %s), %s)" % (g, g, self.lit_int(), self.expr(STR, self.root, 2)))
+            self.root.add(g, t)
+            self.f("package-var")
+        if gl:
+            decls.append(gl)
         if self.xgo and self.r.below(2):
             self.imports.add("errors")
             decls.append(["func ef0(x int) (int, error) {", "\tif x%2 == 0 {", "\t\treturn x + 1, nil", "\t}",
@@ -569,7 +592,7 @@ func keys(m map[string]int) []string {
                 decls.append(self.gen_method(st))
         for _ in range(1 + self.r.below(4)):
             decls.append(self.gen_func())
-        sc = Scope()
+        sc = Scope(self.root)
         main = ["func main() {"]
         main += self.block(sc, 0, 4 + self.r.below(6), "\t")
         ending = self.r.below(12)
